@@ -31,4 +31,23 @@ SameAnswers == /\ ga.present = gb.present
                /\ \A v \in ga.present : ga.edges[v] = gb.edges[v] /\ ga.val[v] = gb.val[v] /\ ga.st[v] = gb.st[v]
                /\ ga.groups = gb.groups /\ ga.nextv = gb.nextv
                /\ last[2] = last[3]
+\* the composite operations as well: a slice from any vertex, and the merge of that slice back into the graph at any
+\* vertex (new vertices for every path the left vertex lacks, ids from the allocator), give the same graph, the same
+\* mapping and the same verdict under both sets of constants - whenever the operation is inside the limits of both
+AllP(f, t, a) == TRUE
+SameG(x, y) == /\ x.present = y.present /\ x.groups = y.groups /\ x.nextv = y.nextv
+               /\ \A v \in x.present : x.edges[v] = y.edges[v] /\ x.val[v] = y.val[v] /\ x.st[v] = y.st[v]
+SlicesSame == \A v \in ga.present :
+                 (A!SliceOk(ga, v, AllP) /\ B!SliceOk(gb, v, AllP)) =>
+                    LET sa == A!SliceOp(ga, v, AllP)  sb == B!SliceOp(gb, v, AllP) IN
+                    /\ sa.present = sb.present /\ sa.groups = sb.groups
+                    /\ \A u \in sa.present : sa.edges[u] = sb.edges[u]
+MergesSame == \A l \in ga.present, r \in ga.present :
+                 (A!SliceOk(ga, r, AllP) /\ B!SliceOk(gb, r, AllP)) =>
+                    LET ra == A!MergeOp(ga, A!SliceOp(ga, r, AllP), l, r)
+                        rb == B!MergeOp(gb, B!SliceOp(gb, r, AllP), l, r) IN
+                    (ra.lim /\ rb.lim) => (SameG(ra.g, rb.g) /\ ra.ok = rb.ok /\ ra.m = rb.m)
+\* probe, must be VIOLATED: some merge of a slice creates a vertex (MergesSame is not vacuous)
+ProbeMergeCreatesNothing == \A l \in ga.present, r \in ga.present :
+                 A!SliceOk(ga, r, AllP) => LET ra == A!MergeOp(ga, A!SliceOp(ga, r, AllP), l, r) IN ra.lim => ra.g.present = ga.present
 =============================================================================
